@@ -183,7 +183,7 @@ def gen_purity_world(rw, rv, knobs):
         m2 = R.add("m", {"kind": "mask2d", "shape": [h2, w2], "bits": m2_bits, "pixel_scales": scales(rw), "origin": [0.0, 0.0]})
         n2 = n_unmasked(m2_bits)
         for _ in range(rw.randrange(2, 6)):
-            k = rw.choice(["array2d", "grid2d", "grid2d_values", "vector", "kernel", "vis", "array1d", "irregular", "array2d", "operators"])
+            k = rw.choice(["array2d", "grid2d", "grid2d", "grid2d_values", "vector", "kernel", "vis", "array1d", "irregular", "array2d", "operators"])
             mid, bits_, hh, ww, nn = rw.choice([(m0, m0_bits, h, w, n0), (m2, m2_bits, h2, w2, n2)])
             if k == "array2d":
                 if rw.random() < 0.5:
@@ -191,7 +191,8 @@ def gen_purity_world(rw, rv, knobs):
                 else:
                     R.add("a", {"kind": "array2d", "mask": ref(mid), "input": "slim", "values": hx(rv, nn, "data"), "store_native": rw.random() < 0.3})
             elif k == "grid2d":
-                over = rw.choice([None, None, {"uniform": 2}, {"uniform": 1}, {"perpix": [rw.choice([1, 2, 3]) for _ in range(nn)]}, {"iterate": [2, 4]}])
+                over = rw.choice([None, None, {"uniform": 2}, {"uniform": 1}, {"perpix": [rw.choice([1, 2, 3]) for _ in range(nn)]}, {"iterate": [2, 4]},
+                                  {"iterate": [2, 4, 8], "accuracy": 0.99}, {"iterate": [2, 4, 8], "accuracy": 0.999}])
                 R.add("g", {"kind": "grid2d", "mask": ref(mid), "mode": "from_mask", "over": over})
             elif k == "grid2d_values":
                 mode = rw.choice(["native", "slim"])
@@ -236,7 +237,14 @@ def gen_purity_world(rw, rv, knobs):
             ks = [max(ks), max(ks)]
         psf = R.add("k", {"kind": "kernel2d", "shape": ks, "values": hx(rv, ks[0] * ks[1], "positive"), "pixel_scales": ps, "normalize": rw.random() < 0.5})
         over = rw.choice([None, None, {"uniform": {"uniform": 2}, "pixelization": {"uniform": 1}}, {"pixelization": {"uniform": 2}}])
-        ds0 = R.add("ds", {"kind": "imaging", "data": ref(d0), "noise": ref(nz), "psf": ref(psf), "over": over})
+        ds_spec = {"kind": "imaging", "data": ref(d0), "noise": ref(nz), "psf": ref(psf), "over": over}
+        if rw.random() < 0.2 and h * w <= 64:
+            # correlated noise: a caller-owned covariance matrix (C- or Fortran-ordered, as scipy / pandas hand them out)
+            ds_spec["cov"] = hx(rv, (h * w) ** 2, "unit")
+            ds_spec["cov_order"] = rw.choice(["C", "F", "F"])
+        if rw.random() < 0.15:
+            ds_spec["use_normalized_psf"] = False
+        ds0 = R.add("ds", ds_spec)
         ds_masked = R.add("ds", {"kind": "derive", "src": ref(ds0), "q": {"t": "call", "name": "apply_mask", "kw": {"mask": ref(m0)}}})
         if rw.random() < 0.3:
             R.add("cv", {"kind": "convolver", "mask": ref(m0), "kernel": ref(psf)})
@@ -251,7 +259,7 @@ def gen_purity_world(rw, rv, knobs):
                 objs.append(R.add("mp", gen_mapper_spec(rw, rv, m0, (h, w), ps, adapt, profile)))
             else:
                 cols = rw.randrange(1, 3)
-                objs.append(R.add("fl", {"kind": "func_list", "mask": ref(m0), "columns": cols, "matrix": hx(rv, n0 * cols, "positive"), "reg": None, "override": hx(rv, n0 * cols, "positive") if rw.random() < 0.35 else None}))
+                objs.append(R.add("fl", {"kind": "func_list", "mask": ref(m0), "columns": cols, "matrix": hx(rv, n0 * cols, "positive"), "reg": (["Constant", {"coefficient": rw.choice([0.5, 2.0])}] if rw.random() < 0.3 else None), "override": hx(rv, n0 * cols, "positive") if rw.random() < 0.35 else None}))
         rw.shuffle(objs)
         settings = None
         if rw.random() < 0.6:
@@ -447,7 +455,7 @@ def gen_preloads_world(rw, rv, knobs):
             obj_specs.append(("mp", s))
         else:
             cols = rw.randrange(1, 3)
-            obj_specs.append(("fl", {"kind": "func_list", "mask": ref(m0), "columns": cols, "matrix": hx(rv, n0 * cols, "positive"), "reg": None, "override": hx(rv, n0 * cols, "positive") if rw.random() < 0.35 else None}))
+            obj_specs.append(("fl", {"kind": "func_list", "mask": ref(m0), "columns": cols, "matrix": hx(rv, n0 * cols, "positive"), "reg": (["Constant", {"coefficient": rw.choice([0.5, 2.0])}] if rw.random() < 0.3 else None), "override": hx(rv, n0 * cols, "positive") if rw.random() < 0.35 else None}))
     if not any(p == "mp" for p, _ in obj_specs) and rw.random() < 0.7:
         s = gen_mapper_spec(rw, rv, m0, (h, w), ps, adapt, False)
         s["sub_size"] = sub
